@@ -550,8 +550,8 @@ func (res *Response) WrappedJSON(buf io.Writer) error {
 		if num > 0 {
 			json.WriteMore()
 		}
-		json.WriteObjectField(k)
-		json.WriteString(strings.TrimSpace(v))
+		writeJSONField(json, k)
+		writeJSONString(json, strings.TrimSpace(v))
 		num++
 	}
 	json.WriteObjectEnd()
@@ -637,7 +637,7 @@ func (res *Response) WriteColumnsResponse(json *jsoniter.Stream) {
 		if i > 0 {
 			json.WriteMore()
 		}
-		json.WriteString(s)
+		writeJSONString(json, s)
 	}
 	json.WriteArrayEnd()
 	json.WriteRaw("\n")
